@@ -7,6 +7,7 @@ import (
 	"fmt"
 	"reflect"
 	"runtime/debug"
+	"strings"
 
 	hio "github.com/hprose/hprose-golang/v3/io"
 
@@ -201,6 +202,12 @@ func runFmt(a Args, which string) tr.Summary {
 		if err := json.Unmarshal([]byte(a.Only), &c); err != nil {
 			panic(err)
 		}
+		if strings.HasPrefix(c.Shape, "random:") {
+			var seed int64
+			fmt.Sscanf(c.Class, "seed:%d", &seed)
+			g := gen.Random(seed, c.Index)
+			roundTrip(t, 1, g, g.Vals[0], c.Mode, tr.Rec{"input": c})
+		}
 		for _, g := range gs {
 			if g.Name != c.Shape {
 				continue
@@ -229,10 +236,28 @@ func runFmt(a Args, which string) tr.Summary {
 			}
 		}
 	}
+	// seeded random compositions to depth 3 (and 4), with shared pointers, slices and maps
+	nRandom := 2500
+	if a.Tier == "thorough" {
+		nRandom = 40000
+	}
+	shapes := map[string]bool{}
+	for i := 0; i < nRandom; i++ {
+		depth := 2 + i%3
+		seed := a.Seed*1000003 + int64(i)
+		g := gen.Random(seed, depth)
+		shapes[g.Name] = true
+		for _, mode := range []string{"simple", "ref"} {
+			id++
+			c := fmtCase{g.Name, g.Vals[0].Class, mode, depth}
+			Watch(id, tr.Rec{"shape": g.Name}, c)
+			roundTrip(t, id, g, g.Vals[0], mode, tr.Rec{"input": c})
+		}
+	}
 	sum.Cases = id
 	sum.Events = t.Lines
-	sum.Nontrivial = len(cells)
-	sum.Extra = tr.Rec{"type_shapes": len(gs), "exhaustive": true}
+	sum.Nontrivial = len(cells) + len(shapes)
+	sum.Extra = tr.Rec{"type_shapes": len(gs), "exhaustive": true, "random_cases": nRandom * 2, "random_type_shapes": len(shapes)}
 	return sum
 }
 
